@@ -498,6 +498,16 @@ func vfC19Corrupt(t *testing.T, res *vfResult, c vfC19Case, kind string, pos int
 				applied = n[p] != 0xff
 				n[p] = 0xff
 			}
+		case "set2", "set7":
+			// small integers: epochs, lengths and enum fields take these values
+			v := byte(2)
+			if kind == "set7" {
+				v = 7
+			}
+			if p < len(n) {
+				applied = n[p] != v
+				n[p] = v
+			}
 		case "append":
 			applied = true
 			n = append(n, bytes.Repeat([]byte{byte(pos)}, 1+pos%7)...)
@@ -609,13 +619,17 @@ func TestVF_C19(t *testing.T) {
 	base := []vfC19Case{
 		{Suite: "ECDSA-GCM128", CID: -1, Side: "c"}, {Suite: "PSK-CCM8", CID: 4, Side: "s", SRTP: true}, {Suite: "ECDSA-CBC", CID: -1, Side: "s", ALPN: true},
 	}
-	step := vfPick(3, 1)
 	for bi, b := range base {
 		b.Idx = bi
+		// the PSK state is short (no certificates): every offset, every kind, also in the quick tier
+		step := vfPick(3, 1)
 		limit := 1300
+		if bi == 1 {
+			step, limit = 1, 420
+		}
 		for pos := 0; pos < limit; pos += step {
-			for _, k := range []string{"truncate", "bitflip", "zero", "ff"} {
-				if !vfThorough() && (pos/step+len(k))%2 == 0 && k != "truncate" {
+			for _, k := range []string{"truncate", "bitflip", "zero", "ff", "set2", "set7"} {
+				if !vfThorough() && bi != 1 && (pos/step+len(k))%2 == 0 && k != "truncate" {
 					continue
 				}
 				cors = append(cors, cor{b, k, pos})
